@@ -81,6 +81,16 @@ def _pool_call(d, name, enc, seed, X, y, K, b, cand=None):
         ens = [_stub_clf(d, enc, K, gen=1), _stub_clf(d, enc, K, gen=2)]
         return P.QueryByCommittee(missing_label=m, random_state=seed).query(X, y, ens, fit_ensemble=False, candidates=cand,
                                                                           batch_size=b, return_utilities=True)
+    if name.startswith("DiscriminativeAL"):
+        greedy = name.endswith("[greedy]")
+        if d.sym:
+            disc = _stub_clf(d, enc, 2, gen=3)
+        else:
+            # concrete replay: a discriminator that really learns from the labeled-vs-unlabeled targets it is handed
+            from skactiveml.classifier import ParzenWindowClassifier
+            disc = ParzenWindowClassifier(classes=[0, 1], missing_label=m, random_state=0)
+        return P.DiscriminativeAL(greedy_selection=greedy, missing_label=m, random_state=seed).query(
+            X, y, disc, candidates=cand, batch_size=b, return_utilities=True)
     raise ValueError(name)
 
 
@@ -407,10 +417,11 @@ PAIRS_Q = [["float_nan", "int_m1"], ["float_nan", "str_nan"], ["float_nan", "obj
 def _cfg_pool(tier):
     out = []
     names = ["RandomSampling", "UncertaintySampling[least_confident]", "UncertaintySampling[entropy]", "CoreSet", "GreedySamplingX",
-             "QueryByCommittee"]
+             "QueryByCommittee", "DiscriminativeAL", "DiscriminativeAL[greedy]"]
     for name in names:
         for encs in (PAIRS_Q if tier == "quick" else PAIRS_Q + [["int_m1", "str_nan", "obj_none"]]):
-            if name in ("QueryByCommittee", "UncertaintySampling[entropy]") and tier == "quick" and encs != PAIRS_Q[0]:
+            if name in ("QueryByCommittee", "UncertaintySampling[entropy]", "DiscriminativeAL", "DiscriminativeAL[greedy]") \
+                    and tier == "quick" and encs != PAIRS_Q[0]:
                 continue
             out.append(dict(name=name, n=3, K=2, encs=encs, b=2))
     # candidates as feature rows, incl. fully labeled label arrays (whose string dtype is narrower than the sentinel)
@@ -428,7 +439,7 @@ UNITS = pl.BASE_UNITS + ["skactiveml.utils._label:is_unlabeled", "skactiveml.uti
                          "skactiveml.pool._expected_error_reduction:ExpectedErrorReduction._concatenate_samples",
                          "skactiveml.pool._uncertainty_sampling:UncertaintySampling.query", "skactiveml.pool._core_set:CoreSet.query"]
 HARNESSES = [
-    dual_harness("pool_strategies", sc_pool, _cfg_pool, UNITS, required_witnesses=("two_candidates",), product_abstraction=True),
+    dual_harness("pool_strategies", sc_pool, _cfg_pool, UNITS, required_witnesses=("two_candidates",), product_abstraction=True, resample=12),
     dual_harness("parzen_window", sc_pwc,
                  lambda tier: [dict(n=2, nq=1, K=K, encs=e) for K in ((2,) if tier == "quick" else (2, 3)) for e in PAIRS_Q],
                  UNITS[8:16], required_witnesses=("no_labels",)),
